@@ -97,6 +97,7 @@ pub fn case(ctx: &Ctx, kind: &str, params: &Value, counting: bool) -> Result<(),
 			let (ver, lf) = cases[params["i"].as_u64().unwrap_or(0) as usize % cases.len()];
 			check(ctx, &one_hot_model(ver, lf), "one_hot", counting)
 		}
+		"large" => check(ctx, &large_model(params["i"].as_u64().unwrap_or(0) as usize), "large_game", counting),
 		"fixture" => match fixture_model(&dna_param(params)) {
 			Some((_, m)) => check(ctx, &m, "fixture", counting),
 			None => Ok(()),
@@ -144,6 +145,10 @@ pub fn run(ctx: &Ctx) -> usize {
 		{
 			violations += 1;
 		}
+	}
+	// games that cross 8-bit / 16-bit counters (items per frame, items in total, frame rows)
+	if violations == 0 && run_enum(ctx, "large", LARGE_CASES, |i| json!({ "i": i }), |i| check(ctx, &large_model(i), "large_game", true)).is_some() {
+		violations += 1;
 	}
 	violations
 }
